@@ -1366,6 +1366,9 @@ func (z *Decimal) SetMantExp(mant *Decimal, exp int) *Decimal {
 	}
 	z.Copy(mant)
 	if z.form != finite {
+		// ±0 or ±Inf scaled by a power of ten: the result is exact, whatever
+		// accuracy mant carried
+		z.acc = Exact
 		return z
 	}
 	// Keep the sum from wrapping around int64; that far out the result over-
